@@ -53,6 +53,8 @@ def tag(v):
   """Python value with its type tag, for printing / comparing presented values."""
   if isinstance(v, (list, tuple)):
     return [tag(x) for x in v]
+  if isinstance(v, float) and v == 0:
+    v = 0.0                       # signed zero is not modelled; -0.0 == 0.0 numerically
   return [type(v).__name__, repr(v)]
 
 
